@@ -53,6 +53,7 @@ from itertools import repeat
 
 from whoosh.compat import izip
 from whoosh.compat import abstractmethod
+from whoosh.system import emptybytes
 
 
 # Exceptions
@@ -528,7 +529,7 @@ class ListMatcher(Matcher):
 
             return v
         else:
-            return ''
+            return emptybytes
 
     def value_as(self, astype):
         decoder = self._format.decoder(astype)
